@@ -535,6 +535,8 @@ func runAudit(c *core.Ctx, w *world) {
 	famKept(c, w, round4Base, c.N(16, 128))
 	famInflight(c, w, round4Base+100_000, c.N(18, 144))
 	famFamilies(c, w, round4Base+200_000, c.N(12, 96))
+	// fifth round (round5.go)
+	famChain(c, w, round5Base, c.N(24, 192))
 }
 
 // ---------------------------------------------------------------------------------------------------------------------
